@@ -722,6 +722,10 @@ def run(ctx):
                                               'max': mx, 'variants': _name_variants(k, p, q), 'lo': lo, 'hi': hi})
                     if bi == 0 and n in ((3, 5) if q else (3, 4, 5)):
                         refit_pool.append({'kind': 'adj', 'S': S, 'T': T, 'obs': obs})
+                        # the same data against other observed summaries (same summary node names, other model):
+                        # a reused adjustment object must not remember the observed data of an earlier fit
+                        if n == 3:
+                            refit_pool.append({'kind': 'adj', 'S': S, 'T': T, 'obs': [1.5, -2][:k]})
                         if p == 2:
                             T2 = [list(r) for r in T]
                             T2[1][0] = 'nan'
